@@ -10,7 +10,6 @@
 package modelreg
 
 import (
-	"bytes"
 	"crypto/sha256"
 	"crypto/sha512"
 	"encoding/hex"
@@ -338,9 +337,31 @@ func (n *Net) finish(req *http.Request, e *Entry, a *Answer) (*http.Response, er
 	if cl, err := strconv.ParseInt(h.Get("Content-Length"), 10, 64); err == nil {
 		resp.ContentLength = cl
 	}
-	resp.Body = io.NopCloser(bytes.NewReader(b))
+	resp.Body = &eofWithData{b: b}
 	return resp, nil
 }
+
+// eofWithData delivers a body the way net/http does for a response of known length: the read that
+// returns the last bytes also returns io.EOF, so a consumer that stops at the first EOF (io.Copy,
+// io.ReadAll) never makes a further call.
+type eofWithData struct {
+	b   []byte
+	pos int
+}
+
+func (r *eofWithData) Read(p []byte) (int, error) {
+	if r.pos >= len(r.b) {
+		return 0, io.EOF
+	}
+	n := copy(p, r.b[r.pos:])
+	r.pos += n
+	if r.pos >= len(r.b) {
+		return n, io.EOF
+	}
+	return n, nil
+}
+
+func (r *eofWithData) Close() error { return nil }
 
 // classify fills Kind, Repo and Ref from the URL.
 func (n *Net) classify(e *Entry) {
